@@ -12,7 +12,7 @@ import (
 func init() {
 	register(Property{ID: "C16", Level: "other", Run: runC16,
 		Technique: "static analysis: who-may-store on path.source / Stream.subStream, must-pass-through path conditions on doAddPublisher and SubStream.WriteUnit, acquire/rollback pairing walk after setAvailable (go/ssa)",
-		Text: "Decides the structural skeleton of 'one publisher, replaced publishers are cut off': path.source is written only by doAddPublisher (req.Author), executeRemovePublisher (nil) and run (static/redirect source); in doAddPublisher the store is reached only if source == nil or overridePublisher with the previous publisher Close()d and executeRemovePublisher()ed first, and only for source 'publisher'; after a successful setAvailable every error reply of doAddPublisher/doSourceStaticSetReady is preceded by setNotAvailable (rollback); SubStream.WriteUnit forwards a unit only under Stream.mutex.RLock and only while Stream.subStream == ss; Stream.subStream is stored only in SubStream.Initialize under the write lock. It does not decide interleavings of a replaced publisher's in-flight writes beyond that guard.",
+		Text: "Decides the structural skeleton of 'one publisher, replaced publishers are cut off': path.source is written only by doAddPublisher (req.Author), executeRemovePublisher (nil) and run (static/redirect source); in doAddPublisher the store is reached only if source == nil or overridePublisher with the previous publisher Close()d and executeRemovePublisher()ed first, and only for source 'publisher'; every call of executeRemovePublisher in the module (the only place that clears the source) is either the answer to a remove request of the current source itself (source == req.Author) or preceded by Close() of the detached publisher, so no live publisher is detached silently; after a successful setAvailable every error reply of doAddPublisher/doSourceStaticSetReady is preceded by setNotAvailable (rollback); SubStream.WriteUnit forwards a unit only under Stream.mutex.RLock and only while Stream.subStream == ss; Stream.subStream is stored only in SubStream.Initialize under the write lock. It does not decide interleavings of a replaced publisher's in-flight writes beyond that guard.",
 		Note: "trusted: go/ssa CFG; the path fields are owned by the path goroutine (single writer), which C40's channel rules support"})
 	register(Property{ID: "C18", Level: "other", Run: runC18,
 		Technique: "static analysis: who-may-write on path.readers / path.stream, must-pass-through path conditions on addReaderPost and setNotAvailable (go/ssa)",
@@ -20,7 +20,7 @@ func init() {
 		Note: "trusted: single-goroutine ownership of path fields"})
 	register(Property{ID: "C19", Level: "other", Run: runC19,
 		Technique: "static analysis: exactly-once typestate over all CFG paths of the request handlers (answer | hold | answering call), drain rules on the on-hold lists, on-demand state-transition table (go/ssa)",
-		Text: "On every path of each path / path-manager request handler exactly one of {send on req.Res, close(req.Res), append to an on-hold list, call of an answering function} happens; the on-hold lists are appended to only by doDescribe/doAddReader; every `list = nil` is preceded by a loop answering every element, the drain sites are exactly source ready / publisher added (consumeOnHoldRequests), both start-timeout timers, and the teardown of run answers both lists; requesters receive from req.Res after a successful send on an unbuffered channel created by the wrapper; stores to the on-demand state fields form exactly the documented transition table and Start is called only from state initial. Interleavings with timer expiry are not decided.",
+		Text: "On every path of each path / path-manager request handler exactly one of {send on req.Res, close(req.Res), append to an on-hold list, call of an answering function} happens; the on-hold lists are appended to only by doDescribe/doAddReader; every `list = nil` is preceded by a loop answering every element, the drain sites are exactly source ready / publisher added (consumeOnHoldRequests), both start-timeout timers, and the teardown of run answers both lists; requesters receive from req.Res after a successful send on an unbuffered channel created by the wrapper; stores to the on-demand state fields form exactly the documented transition table and Start is called only from state initial; inside a handler no onDemand*ScheduleClose (arming of the close timer) follows a call that attaches readers (consumeOnHoldRequests / addReaderPost) unless len(readers) == 0 was re-tested, and the two on-ready handlers arm it before their success reply when the source arrived on demand. Interleavings with timer expiry are not decided.",
 		Note: "trusted: Go channel semantics; single-goroutine ownership of path fields"})
 	register(Property{ID: "C20", Level: "other", Run: runC20,
 		Technique: "static analysis: per-holder pairing idioms for the closures returned by hooks.On* (defer / nil-guarded field / resource-paired field), who-may-store and who-may-call on holder fields, guarded-caller tables (go/ssa)",
@@ -40,6 +40,10 @@ func init() {
 			"	if pa.conf.Source != \"publisher\" {\n		req.Res <- defs.PathAddPublisherRes{\n			Err: fmt.Errorf(\"can't publish to path '%s' since 'source' is not 'publisher'\", pa.name),\n		}\n		return\n	}\n", "	_ = fmt.Sprint\n", "C16.add_publisher"},
 		Mutant{"C16", "removed-publisher-stays-current", "internal/core/path.go",
 			"		err := pa.stream.StartOfflineSubStream()\n		if err != nil {\n			panic(\"should not happen\")\n		}\n	}\n	pa.source = nil", "		if pa.conf.SourceOnDemand {\n			err := pa.stream.StartOfflineSubStream()\n			if err != nil {\n				panic(\"should not happen\")\n			}\n		}\n	}\n	pa.source = nil", "C16.remove_publisher.cut_off"},
+		Mutant{"C16", "close-timer-detaches-live-publisher", "internal/core/path.go",
+			"func (pa *path) doOnDemandPublisherCloseTimer() {\n	pa.onDemandPublisherStop(\"not needed by anyone\")", "func (pa *path) doOnDemandPublisherCloseTimer() {\n	pa.onDemandPublisherStop(\"not needed by anyone\")\n	if pa.source != nil {\n		pa.executeRemovePublisher()\n	}", "C16.detach_closed"},
+		Mutant{"C16", "reload-detaches-live-publisher", "internal/core/path.go",
+			"	pa.forwardManager.ReloadConf(newConf.Forward)\n", "	pa.forwardManager.ReloadConf(newConf.Forward)\n	if _, ok := pa.source.(defs.Publisher); ok && newConf.MaxReaders != oldConf.MaxReaders {\n		pa.executeRemovePublisher()\n	}\n", "C16.detach_closed"},
 		// C18
 		Mutant{"C18", "attached-reader-refused-when-full", "internal/core/path.go",
 			"	if _, ok := pa.readers[req.Author]; ok {\n		req.Res <- defs.PathAddReaderRes{Stream: pa.stream}\n		return\n	}\n\n	if pa.conf.MaxReaders != 0 && len(pa.readers) >= pa.conf.MaxReaders {\n		req.Res <- defs.PathAddReaderRes{Err: fmt.Errorf(\"maximum reader count reached\")}\n		return\n	}\n",
@@ -72,6 +76,14 @@ func init() {
 			"		if pa.onDemandPublisherState == pathOnDemandStateInitial {\n			pa.onDemandPublisherStart(req.AccessRequest.Query)\n		}\n		pa.describeRequestsOnHold", "		pa.onDemandPublisherStart(req.AccessRequest.Query)\n		pa.describeRequestsOnHold", "C19.state"},
 		Mutant{"C19", "manager-double-reply", "internal/core/path_manager.go",
 			"	if !ok {\n		req.res <- pathAPIPathsGetRes{err: conf.ErrPathNotFound}\n		return\n	}\n\n	req.res <- pathAPIPathsGetRes{path: pa}", "	if !ok {\n		req.res <- pathAPIPathsGetRes{err: conf.ErrPathNotFound}\n	}\n\n	req.res <- pathAPIPathsGetRes{path: pa}", "C19.handler"},
+		Mutant{"C19", "held-readers-attached-before-close-is-scheduled", "internal/core/path.go",
+			"	if pa.conf.HasOnDemandPublisher() && pa.onDemandPublisherState != pathOnDemandStateInitial {\n		pa.onDemandPublisherReadyTimer.Stop()\n		pa.onDemandPublisherReadyTimer = emptyTimer()\n		pa.onDemandPublisherScheduleClose()\n	}\n\n	pa.consumeOnHoldRequests()\n",
+			"	pa.consumeOnHoldRequests()\n\n	if pa.conf.HasOnDemandPublisher() && pa.onDemandPublisherState != pathOnDemandStateInitial {\n		pa.onDemandPublisherReadyTimer.Stop()\n		pa.onDemandPublisherReadyTimer = emptyTimer()\n		pa.onDemandPublisherScheduleClose()\n	}\n", "C19.close_timer.no_reader"},
+		Mutant{"C19", "held-readers-attached-before-close-is-scheduled-static", "internal/core/path.go",
+			"	if pa.conf.HasOnDemandStaticSource() {\n		pa.onDemandStaticSourceReadyTimer.Stop()\n		pa.onDemandStaticSourceReadyTimer = emptyTimer()\n		pa.onDemandStaticSourceScheduleClose()\n	}\n\n	pa.consumeOnHoldRequests()\n",
+			"	pa.consumeOnHoldRequests()\n\n	if pa.conf.HasOnDemandStaticSource() {\n		pa.onDemandStaticSourceReadyTimer.Stop()\n		pa.onDemandStaticSourceReadyTimer = emptyTimer()\n		pa.onDemandStaticSourceScheduleClose()\n	}\n", "C19.close_timer.no_reader"},
+		Mutant{"C19", "close-never-scheduled-on-ready", "internal/core/path.go",
+			"		pa.onDemandPublisherReadyTimer = emptyTimer()\n		pa.onDemandPublisherScheduleClose()\n", "		pa.onDemandPublisherReadyTimer = emptyTimer()\n", "C19.close_timer.armed_on_ready"},
 		// C20
 		Mutant{"C20", "unread-hook-not-deferred", "internal/servers/srt/conn.go",
 			"	defer onUnreadHook()\n", "	_ = onUnreadHook\n", "C20.local_holder"},
@@ -162,7 +174,7 @@ func runC16(c *Ctx) {
 	if p == nil {
 		return
 	}
-	c.Explain = "E2: stores to path.source ∈ {doAddPublisher, executeRemovePublisher, run}; E1 on doAddPublisher (store of req.Author ⇒ conf.Source == publisher ∧ (source == nil ∨ override ∧ Close ∧ executeRemovePublisher before)); E4 rollback after setAvailable; E1 on SubStream.WriteUnit (forward ⇒ RLock held ∧ Stream.subStream == ss); E2: Stream.subStream stored only in SubStream.Initialize after mutex.Lock. Not decided: concurrent in-flight writes of a replaced publisher beyond that guard."
+	c.Explain = "E2: stores to path.source ∈ {doAddPublisher, executeRemovePublisher, run}; E1 on doAddPublisher (store of req.Author ⇒ conf.Source == publisher ∧ (source == nil ∨ override ∧ Close ∧ executeRemovePublisher before)); E4 rollback after setAvailable; E1 on SubStream.WriteUnit (forward ⇒ RLock held ∧ Stream.subStream == ss); E2: Stream.subStream stored only in SubStream.Initialize after mutex.Lock. C16.detach_closed: every executeRemovePublisher call site ⇒ (remove request ∧ source == req.Author) ∨ source.(Publisher).Close() before. Not decided: concurrent in-flight writes of a replaced publisher beyond that guard."
 	c.Assume = []string{"path fields are touched only by the path goroutine"}
 
 	who := map[string]bool{corePath + "doAddPublisher": true, corePath + "executeRemovePublisher": true, corePath + "run": true}
@@ -229,6 +241,32 @@ func runC16(c *Ctx) {
 	if rp := pathFn(c, p, "doRemovePublisher"); rp != nil {
 		c.MustPass(p, rp, "C16.remove_publisher", "executeRemovePublisher", callTo("(*core.path).executeRemovePublisher"), T("($0.source == $1.Author)"))
 	}
+	// Every detachment of a publisher (call of executeRemovePublisher, the only
+	// function that clears path.source) happens either at the request of that very
+	// publisher (remove-publisher request whose author is the current source: it is
+	// going away by itself) or after the path Close()d it. A publisher that is
+	// detached without being told keeps its session in state 'publish' while the
+	// path admits another one: two publishers on one path name.
+	nDet := 0
+	closePrev := func(i ssa.Instruction) bool {
+		return isCallTo(i, "(defs.Publisher).Close") && desc(argN(callCommon(i), 0)) == "$0.source.(defs.Publisher)"
+	}
+	for _, fn := range p.ModFuncs() {
+		for _, cl := range callsIn(fn, "(*core.path).executeRemovePublisher") {
+			nDet++
+			ccl := cl
+			isCl := func(i ssa.Instruction) bool { return i == ccl }
+			self := false
+			if len(fn.Params) == 2 && strings.HasSuffix(typeStr(fn.Params[1].Type()), "defs.PathRemovePublisherReq") {
+				self = reachWithout(entry(fn), isCl, []LitPat{T("($0.source == $1.Author)")}) == nil
+			}
+			w := reachAvoiding(entry(fn), isCl, closePrev)
+			c.Check("C16.detach_closed", "executeRemovePublisher in "+fnName(fn)+": the detached publisher asked for it (source == req.Author of a remove request) or was Close()d before", self || w == nil, p.Pos(cl.Pos()),
+				"a publisher detached without being closed stays connected while the path accepts a new one; "+w.String(p))
+		}
+	}
+	c.Floor("C16.detach_closed", nDet, 2)
+
 	c.rollbackAfterSetAvailable(p, "C16.rollback")
 
 	// SubStream.WriteUnit
@@ -388,7 +426,7 @@ func runC19(c *Ctx) {
 	if p == nil {
 		return
 	}
-	c.Explain = "E4 exactly-once over all CFG paths of the handlers (events: send on / close of the request's reply channel, append of the request to an on-hold list, call of an answering function with the request); E2 who-may-append to the on-hold lists; drain rule per `list = nil`; teardown drain in path.run; requester-side receive after send; on-demand state stores against the transition table. Not decided: interleavings with timer expiry, fairness."
+	c.Explain = "E4 exactly-once over all CFG paths of the handlers (events: send on / close of the request's reply channel, append of the request to an on-hold list, call of an answering function with the request); E2 who-may-append to the on-hold lists; drain rule per `list = nil`; teardown drain in path.run; requester-side receive after send; on-demand state stores against the transition table; C19.close_timer.*: no ScheduleClose after a reader-attaching call without len(readers)==0, ScheduleClose before the success reply of the on-ready handlers. Not decided: interleavings with timer expiry, fairness."
 	c.Assume = []string{"path fields are touched only by the path goroutine", "reply channels are unbuffered and each request value is handled by one handler invocation"}
 
 	holdLists := []string{"describeRequestsOnHold", "readerAddRequestsOnHold"}
@@ -602,6 +640,62 @@ func runC19(c *Ctx) {
 				c.MustPass(p, fn, "C19.state.guard", "onDemand"+kind+"Start", func(i ssa.Instruction) bool { return i == ccl }, T("($0."+field+" == 0)"))
 			}
 		}
+	}
+
+	// "stop after the close delay once NO READER REMAINS": the close timer is armed
+	// (onDemand*ScheduleClose: state <- closing, timer started) only while no reader is
+	// attached. addReaderPost disarms it only when it finds the state closing, so a
+	// handler that first attaches readers (directly or by draining the on-hold list) and
+	// arms the timer afterwards, without re-testing len(readers) == 0, lets the timer
+	// expire with a reader attached: the on-demand source / command is stopped under it.
+	attach := []string{"(*core.path).consumeOnHoldRequests", "(*core.path).addReaderPost"}
+	sched := callTo("(*core.path).onDemandPublisherScheduleClose", "(*core.path).onDemandStaticSourceScheduleClose")
+	nAtt := 0
+	for _, fn := range p.ModFuncs() {
+		if !strings.HasSuffix(funcPkgPath(fn), "/internal/core") {
+			continue
+		}
+		for _, a := range callsIn(fn, attach...) {
+			nAtt++
+			w := (&Walker{
+				Visit: func(i ssa.Instruction) int {
+					if sched(i) {
+						return wHit
+					}
+					return wContinue
+				},
+				Edge: func(l Lit) bool { return !(l.Pos && atomMatch("(len($0.readers) == 0)", l.Atom)) },
+			}).Run(after(a))
+			c.Check("C19.close_timer.no_reader", fnName(fn)+": after "+calleeName(callCommon(a))+" attached readers the close timer is armed only under len(readers) == 0", w == nil, p.Pos(posOf(a, fn)),
+				"ScheduleClose after the held readers were attached leaves the state closing with a reader attached; the timer then stops the source under it. "+w.String(p))
+		}
+	}
+	c.Floor("C19.close_timer.no_reader", nAtt, 4)
+	// ... and when the awaited source / publisher arrives on demand, the close timer IS
+	// armed (before the success reply): otherwise the state never leaves waitingReady and
+	// the source is never stopped after the last reader left (doRemoveReader arms it only from ready).
+	for _, h := range []struct{ fn, kind string }{{"doAddPublisher", "Publisher"}, {"doSourceStaticSetReady", "StaticSource"}} {
+		fn := pathFn(c, p, h.fn)
+		if fn == nil {
+			continue
+		}
+		has := "(conf.Path).HasOnDemand" + h.kind + "($0.conf)"
+		st0 := "($0.onDemand" + h.kind + "State == 0)"
+		w := (&Walker{
+			Visit: func(i ssa.Instruction) int {
+				if isCallTo(i, "(*core.path).onDemand"+h.kind+"ScheduleClose") {
+					return wStop
+				}
+				if s, ok := i.(*ssa.Send); ok && !isErrReply(s) && desc(s.Chan) == "$1.Res" {
+					return wHit
+				}
+				return wContinue
+			},
+			Edge: func(l Lit) bool {
+				return !(!l.Pos && atomMatch(has, l.Atom)) && !(l.Pos && atomMatch(st0, l.Atom))
+			},
+		}).Run(entry(fn))
+		c.Check("C19.close_timer.armed_on_ready", fnName(fn)+": on demand (HasOnDemand"+h.kind+" ∧ state != initial) the success reply is preceded by onDemand"+h.kind+"ScheduleClose", w == nil, p.Pos(fn.Pos()), w.String(p))
 	}
 }
 
